@@ -14,6 +14,8 @@ import Props.C12
 #print axioms SpyneModel.Props.C12.requests_with_safe_operations_do_not_interfere
 #print axioms SpyneModel.Props.C12.every_modelled_operation_is_safe
 #print axioms SpyneModel.Props.C12.cache_transparent
+#print axioms SpyneModel.Props.C12.no_cross_talk
 #print axioms SpyneModel.Props.C12.attr_publication_order_matters
 #print axioms SpyneModel.Props.C12.error_log_read_must_be_atomic
 #print axioms SpyneModel.Props.C12.parked_request_data_crosses_threads
+#print axioms SpyneModel.Props.C12.shared_context_cell_crosses_threads
